@@ -12,6 +12,7 @@ once in anchors.toml) stay silent on pure renames:
 
 Anything else (fields added, types changed, two candidates) is left alone: rules then see the real
 program and fail closed where an anchor is gone."""
+import copy
 import json
 import os
 import re
@@ -395,6 +396,11 @@ def normalize(raw):
                         proto = fl[k[0]]
                         fl[k[0]:k[0] + 1] = [dict(proto, name=n, ty=t) for n, t in tys.items()]
         log["grouped_fields"] = {f"{p}.{f}": sorted(m.values()) for (p, f), (sty, m, tys) in gmap.items()}
+    # ---- several parameters of a function bundled into one parameter of a new private struct (by value or by
+    # reference): the struct parameter is replaced by one parameter per field, in the body and at every call site
+    pobj = _flatten_parameter_objects(raw, pin)
+    if pobj:
+        log["parameter_objects"] = pobj
     # ---- parameters of a function declared in another order (same names): the body's argument locals, the `inputs`
     # of its signature and the argument lists of every call to it are permuted back to the pinned order
     perms = {}
@@ -600,3 +606,151 @@ def _flatten_aggregates(raw, gmap):
                     rv["ops"][i:i + 1] = new_ops
     # places built above (`x.group.sub`) are flattened like every other place
     reflatten(raw)
+
+
+def _flatten_parameter_objects(raw, pin):
+    have = {a_["path"]: a_ for a_ in raw["adts"]}
+    pinned_adts = set(pin["adts"]) | set(pin.get("enums", []))
+    done = {}
+    plans = {}
+    for b in raw["bodies"]:
+        pf = pin["fns"].get(b["path"])
+        if not pf or b["kind"] not in ("Fn", "AssocFn") or b["arg_count"] >= len(pf["params"]) or b["arg_count"] < 1:
+            continue
+        nm = {}
+        for n in b["names"]:
+            pl = n["place"]
+            if not pl["p"] and 1 <= pl["l"] <= b["arg_count"]:
+                nm.setdefault(pl["l"], n["name"])
+        cn = [nm.get(i, "") for i in range(1, b["arg_count"] + 1)]
+        want = pf["params"]
+        if "" in cn or "" in want or len(set(want)) != len(want):
+            continue
+        extra = [i for i, n in enumerate(cn) if n not in want]
+        missing = [n for n in want if n not in cn]
+        if len(extra) != 1 or len(missing) < 2:
+            continue
+        g = extra[0] + 1                                  # the local of the struct parameter
+        gty = b["locals"][g]["ty"]
+        byref = gty.startswith("&")
+        sty = gty.lstrip("&").strip()
+        if sty.startswith("mut "):
+            sty = sty[4:]
+        if sty.startswith("'"):
+            sty = sty.split(" ", 1)[1] if " " in sty else sty
+        sdef = have.get(sty)
+        if sdef is None or sty in pinned_adts or sdef["kind"] != "Struct" or not sdef["variants"] or sty.startswith(("std::", "core::", "alloc::")):
+            continue
+        flds = sdef["variants"][0]["fields"]
+        if sorted(f["name"] for f in flds) != sorted(missing):
+            continue
+        # every use of the parameter in the body is a field access
+        pre = ["*"] if byref else []
+        ok = True
+
+        def scan(o):
+            nonlocal ok
+            if isinstance(o, dict):
+                if "l" in o and "p" in o and isinstance(o["p"], list):
+                    if o["l"] == g:
+                        p = o["p"]
+                        if p[:len(pre)] != pre or len(p) <= len(pre) or not (isinstance(p[len(pre)], dict) and "f" in p[len(pre)] and "downcast" not in p[len(pre)]):
+                            ok = False
+                    for el in o["p"]:
+                        if isinstance(el, dict) and el.get("index") == g:
+                            ok = False
+                    return
+                for k, v in o.items():
+                    if k not in ("span", "fn"):
+                        scan(v)
+            elif isinstance(o, list):
+                for v in o:
+                    scan(v)
+        scan(b["blocks"])
+        if not ok:
+            continue
+        plans[b["path"]] = (b, g, byref, sty, flds)
+    for path, (b, g, byref, sty, flds) in plans.items():
+        n_old = b["arg_count"]
+        nf = len(flds)
+        # new numbering: the other arguments keep their order, the fields follow them, everything else shifts
+        newl = {}
+        k = 1
+        for i in range(1, n_old + 1):
+            if i != g:
+                newl[i] = k
+                k += 1
+        fld_local = {}
+        for j, f in enumerate(flds):
+            fld_local[j] = k
+            k += 1
+        for i in range(n_old + 1, len(b["locals"])):
+            newl[i] = i + nf - 1
+        newl[0] = 0
+        npre = 1 if byref else 0
+
+        def remap(o):
+            if isinstance(o, dict):
+                if "l" in o and "p" in o and isinstance(o["p"], list):
+                    for el in o["p"]:
+                        if isinstance(el, dict) and "index" in el:
+                            el["index"] = newl[el["index"]]
+                    if o["l"] == g:
+                        fi = o["p"][npre]["f"]
+                        o["l"] = fld_local[fi]
+                        o["p"] = o["p"][npre + 1:]
+                    else:
+                        o["l"] = newl[o["l"]]
+                    return
+                for k_, v in o.items():
+                    if k_ not in ("span", "fn"):
+                        remap(v)
+            elif isinstance(o, list):
+                for v in o:
+                    remap(v)
+        remap(b["blocks"])
+        b["names"] = [n for n in b["names"] if not (n["place"]["l"] == g and not n["place"]["p"])]
+        remap(b["names"])
+        old = b["locals"]
+        new = [None] * (len(old) + nf - 1)
+        for i, l in enumerate(old):
+            if i != g:
+                new[newl[i]] = l
+        for j, f in enumerate(flds):
+            new[fld_local[j]] = {"ty": f["ty"]}
+            b["names"].insert(0, {"name": f["name"], "place": {"l": fld_local[j], "p": [], "ty": f["ty"]}})
+        b["locals"] = new
+        b["arg_count"] = n_old + nf - 1
+        for f_ in raw["fns"]:
+            if f_["path"] == path and len(f_.get("inputs", [])) == n_old:
+                ins = [t for i, t in enumerate(f_["inputs"]) if i != g - 1] + [f["ty"] for f in flds]
+                f_["inputs"] = ins
+        done[path] = {"struct": sty, "fields": [f["name"] for f in flds], "by_reference": byref}
+    if not plans:
+        return done
+    for b in raw["bodies"]:
+        for blk in b["blocks"]:
+            t = blk["term"]
+            if t.get("t") != "call":
+                continue
+            fn = t.get("func", {}).get("fn") if t.get("func", {}).get("k") == "const" else None
+            if not fn:
+                continue
+            pl = plans.get(fn.get("resolved") or fn.get("path"))
+            if not pl:
+                continue
+            _b, g, byref, sty, flds = pl
+            if len(t["args"]) != _b["arg_count"] - len(flds) + 1:      # the arity before the flattening
+                continue
+            a = t["args"][g - 1]
+            if a.get("k") not in ("move", "copy"):
+                continue
+            rest = [x for i, x in enumerate(t["args"]) if i != g - 1]
+            fa = []
+            for j, f in enumerate(flds):
+                p = copy.deepcopy(a["pl"])
+                p["p"] = list(p["p"]) + (["*"] if byref else []) + [{"f": j, "ty": f["ty"], "name": f["name"], "adt": sty}]
+                p["ty"] = f["ty"]
+                fa.append({"k": "copy", "pl": p})
+            t["args"] = rest + fa
+    return done
